@@ -3,7 +3,15 @@
 import json, os, sys
 HERE = os.path.dirname(os.path.abspath(__file__))
 sys.path.insert(0, os.path.dirname(HERE))
-from tools.manifest_data import CLAIMED, NOT_YET
+import glob
+CLAIMED = {}
+for path in sorted(glob.glob(os.path.join(HERE, "manifest", "C*.json"))):
+    with open(path) as f:
+        CLAIMED[os.path.basename(path)[:-5]] = json.load(f)
+NOT_YET = {}
+if os.path.exists(os.path.join(HERE, "manifest", "not_claimed.json")):
+    with open(os.path.join(HERE, "manifest", "not_claimed.json")) as f:
+        NOT_YET = json.load(f)
 ALL = ["C%02d" % i for i in range(1, 21)]
 m = {
     "version": 1,
